@@ -192,6 +192,19 @@ func partA(res *core.Result, pool *idPool, r *rand.Rand, t *vmesh.Topology, labe
 		res.Inconcl("mesh did not converge (C09's business): %v", err)
 		return
 	}
+	if r.IntN(2) == 0 {
+		// the routers have been up for a while: the ten-minute housekeeping of the routing table ran (once or twice)
+		// at every router before the traffic starts
+		desc += " table-housekeeping-before-traffic"
+		for k := 1 + r.IntN(2); k > 0; k-- {
+			for _, n := range ms.Nodes {
+				if n.Inst != nil {
+					n.Inst.RoutingTable().Clean()
+				}
+			}
+		}
+		res.Count("meshes_with_table_housekeeping_before_traffic", 1)
+	}
 	cm := newMonitor()
 	ms.OnForward = cm.onForward
 	ms.OnSend = cm.onSend
